@@ -74,6 +74,8 @@ impl GenReader {
         let pad = "x".repeat(self.size.saturating_sub(24));
         match self.fmt {
             "json" => self.buf.extend_from_slice(format!("{{\"i\":{},\"p\":\"{}\"}}\n", self.i, pad).as_bytes()),
+            // (every other document carries %YAML / %TAG directives: DOCUMENT-START events that own heap data)
+            "yaml" if self.i % 2 == 1 => self.buf.extend_from_slice(format!("%YAML 1.1\n%TAG !e! tag:example.com,2000:\n---\ni: {}\np: \"{}\"\n...\n", self.i, pad).as_bytes()),
             "yaml" => self.buf.extend_from_slice(format!("---\ni: {}\np: \"{}\"\n", self.i, pad).as_bytes()),
             _ => {
                 // {"i": u64, "p": str}
